@@ -81,7 +81,12 @@ def _check_tree(shape, n, rng, fails, samples, tamper=False):
             bad("no control block for a leaf of the tree", leaf=i)
             continue
         ser = cb.serialize()
-        if ser != T.control_block_ser(versions[i], T.parity(q_spec), T.x32(s.curve.pt(pub)), paths[i][2]):
+        # a leaf that occurs more than once (same version and script bytes, hence the same leaf hash) is found by equality:
+        # the library hands out the block of its FIRST occurrence, which is a correct block for that leaf (checked below:
+        # it parses back, recomputes the output key and satisfies the BIP341 rule); the byte-exact expectation is
+        # therefore the path of the first equal leaf
+        first = specs.index(specs[i])
+        if ser != T.control_block_ser(versions[i], T.parity(q_spec), T.x32(s.curve.pt(pub)), paths[first][2]):
             bad("control block bytes differ from BIP341", leaf=i, got=ser)
         back = ControlBlock.parse(ser)
         if not (back == cb and back.serialize() == ser and back.tapleaf_version == cb.tapleaf_version and back.parity == cb.parity
